@@ -1442,7 +1442,21 @@ class Unserializer:
                     raise LoadError(
                         f"unknown opcode {opcode!r} - wire protocol corruption?"
                     ) from None
-                loader(self)
+                try:
+                    loader(self)
+                except (
+                    struct.error,
+                    ValueError,
+                    TypeError,
+                    IndexError,
+                    KeyError,
+                    AssertionError,
+                    OverflowError,
+                ) as exc:
+                    # low-level complaints about inconsistent data
+                    raise LoadError(
+                        f"corrupted data at opcode {opcode!r}: {exc!r}"
+                    ) from None
         except _Stop:
             if len(self.stack) != 1:
                 raise LoadError("internal unserialization error") from None
@@ -1483,24 +1497,32 @@ class Unserializer:
     num2func[opcode.LONGLONG] = load_longlong
 
     def load_float(self) -> None:
-        binary = self.stream.read(FLOAT_FORMAT_SIZE)
+        binary = self._read(FLOAT_FORMAT_SIZE)
         self.stack.append(struct.unpack(FLOAT_FORMAT, binary)[0])
 
     num2func[opcode.FLOAT] = load_float
 
     def load_complex(self) -> None:
-        binary = self.stream.read(COMPLEX_FORMAT_SIZE)
+        binary = self._read(COMPLEX_FORMAT_SIZE)
         self.stack.append(complex(*struct.unpack(COMPLEX_FORMAT, binary)))
 
     num2func[opcode.COMPLEX] = load_complex
 
+    def _read(self, numbytes: int) -> bytes:
+        data = self.stream.read(numbytes)
+        if len(data) != numbytes:
+            raise EOFError("expected %d bytes, got %d" % (numbytes, len(data)))
+        return data
+
     def _read_int4(self) -> int:
-        value: int = struct.unpack("!i", self.stream.read(4))[0]
+        value: int = struct.unpack("!i", self._read(4))[0]
         return value
 
     def _read_byte_string(self) -> bytes:
         length = self._read_int4()
-        as_bytes = self.stream.read(length)
+        if length < 0:
+            raise LoadError("negative length %d" % length)
+        as_bytes = self._read(length)
         return as_bytes
 
     def load_py3string(self) -> None:
